@@ -13,6 +13,7 @@ open Backend Spsc
 structure ClosedC (P : BSt → Prop) : Prop where
   clock : ∀ s n, P s → P { s with now := n }
   gone : ∀ s, P s → P { s with backendGone := true }
+  lastFlush : ∀ s n, P s → P { s with lastFlush := n }
   refresh : ∀ s, P s → P (refreshCache s)
   allEmpty : ∀ s, P s → P (allEmpty s).1
   hasPending : ∀ s, P s → P (hasPending s).1
@@ -270,6 +271,21 @@ theorem cleanupLoggers_okC {inj : BSt → Nat → BSt} (hi : InjOK P inj) (s : B
         exact ih _ (fun g' hg' => hl g' (List.mem_cons_of_mem _ hg')) hstep.1 hstep.2
     exact h3 removed s1 (fun _ h => h) q1 rfl
 
+theorem flushGate_okC {inj : BSt → Nat → BSt} (hi : InjOK P inj) (s : BSt) (n : Nat) (hs : P s) : P (flushGate inj s n) := by
+  unfold flushGate
+  split
+  · exact hc.flushSinks _ hs
+  · simp only []
+    split
+    · exact hc.flushSinks _ (hc.lastFlush _ _ (hi _ 7 hs).1)
+    · exact (hi _ 7 hs).1
+
+theorem preEraseFlush_okC (s : BSt) (hs : P s) : P (preEraseFlush s) := by
+  unfold preEraseFlush
+  split
+  · exact hc.flushSinks _ hs
+  · exact hs
+
 theorem poll_okC {inj : BSt → Nat → BSt} (hi : InjOK P inj) (s : BSt) (hs : P s) : P (poll inj s) := by
   unfold poll
   have hp := populate_okC hc hi s hs
@@ -280,10 +296,10 @@ theorem poll_okC {inj : BSt → Nat → BSt} (hi : InjOK P inj) (s : BSt) (hs : 
   · split
     · exact processLowest_okC hc hi _ hp
     · exact batchLoop_okC hc hi _ _ hp
-  · have h3 := checkFailures_okC hc hi _ (hc.flushSinks _ (hi _ 5 hp).1)
+  · have h3 := checkFailures_okC hc hi _ (flushGate_okC hc hi (inj s1 5) (inj s1 5).cfg.flushInterval (hi _ 5 hp).1)
     have h4 := hc.allEmpty _ h3
     split
-    · exact cleanupLoggers_okC hc hi _ (hc.cleanupContexts _ h4)
+    · exact cleanupLoggers_okC hc hi _ (preEraseFlush_okC hc _ (hc.cleanupContexts _ h4))
     · exact h4
 
 theorem exitLoop_okC {inj : BSt → Nat → BSt} (hi : InjOK P inj) (tick : Nat) :
@@ -294,7 +310,7 @@ theorem exitLoop_okC {inj : BSt → Nat → BSt} (hi : InjOK P inj) (tick : Nat)
     simp only []
     have h1 := hc.allEmpty s hs
     split
-    · exact cleanupLoggers_okC hc hi _ (hc.cleanupContexts _ (hc.flushSinks _ (checkFailures_okC hc hi _ h1)))
+    · exact cleanupLoggers_okC hc hi _ (preEraseFlush_okC hc _ (hc.cleanupContexts _ (hc.flushSinks _ (checkFailures_okC hc hi _ h1))))
     · have h2 := populate_okC hc hi _ (hc.clock _ ((allEmpty s).1.now + tick) h1)
       rcases hpe : populate inj { (allEmpty s).1 with now := (allEmpty s).1.now + tick } with ⟨s1, count⟩
       rw [hpe] at h2
